@@ -171,6 +171,17 @@ func c02Enum(t *testing.T, out *vfOut, r *vfRand, n int) {
 			for _, k := range idx { // deterministic spread over the generations
 				in.Gen = (in.Gen + k + 1) % 3
 			}
+			switch sum := len(idx) + in.Gen; { // and over the request deadlines
+			case sum%4 == 0:
+				in.Deadline = "expired"
+			case sum%4 == 1:
+				in.Deadline = "far"
+			}
+			for _, k := range idx {
+				if k%5 == 3 {
+					in.Deadline = "expired"
+				}
+			}
 			obs := VfC02RunEnum(&in)
 			out.Emit(vfCase{ID: fmt.Sprintf("enum-%s-%v", tag, idx), Src: "gen", Grp: "enum", In: in, Obs: obs})
 		}
